@@ -252,6 +252,8 @@ func (env *verifQEnv) verifRunAdmission(ctx *Context) {
 	if env.failed > 0 {
 		vz.Cover("write-failed")
 		vz.Assert(err != nil, "C20/failed-write-is-reported-for-retry")
+		// a failed write leaves no trace in the in-memory state the retry starts from
+		vz.Assert(env.store.VerifCount("uid1") == env.c0+applied-env.finishes, "C20/failed-write-leaves-counter-consistent")
 	}
 	// FIFO among Enqueue jobs: a later-created one never starts while an earlier-created due one stays queued
 	for _, a := range env.jobs {
@@ -278,7 +280,7 @@ func (env *verifQEnv) verifRunAdmission(ctx *Context) {
 				armed := false
 				for _, op := range env.queue.Ops {
 					if op.Op == "addAfter" && op.Key == "ns/jc" {
-						armed = vz.Or(armed, vz.And(!op.At.Add(op.After).Before(q.startAfter), op.After >= time.Second))
+						armed = vz.Or(armed, !op.At.Add(op.After).Before(q.startAfter))
 					}
 				}
 				vz.Assert(armed, "C07/resync-armed-for-startAfter")
@@ -316,7 +318,7 @@ func VerifH_C07_independent() {
 		armed := false
 		for _, op := range env.iqueue.Ops {
 			if op.Op == "addAfter" && op.Key == "ns/j0" {
-				armed = vz.Or(armed, vz.And(!op.At.Add(op.After).Before(q.startAfter), op.After >= time.Second))
+				armed = vz.Or(armed, !op.At.Add(op.After).Before(q.startAfter))
 			}
 		}
 		vz.Assert(armed, "C07/independent-resync-armed")
